@@ -1,3 +1,4 @@
 -- Root of the `DvidModel` library: every model, lemma and property module.
+import DvidModel.Props.C01
 import DvidModel.Props.C06
 import DvidModel.Props.C15
